@@ -7,6 +7,7 @@ Never touches /repo. Prints one line per seed; exit 0 iff every expected detecti
 import json, os, shutil, subprocess, sys, tempfile
 VERIF = os.path.dirname(os.path.dirname(os.path.abspath(__file__)))
 props = [a.upper() for a in sys.argv[1:] if not a.startswith('-')]
+UPDATE = '--update' in sys.argv   # write the observed result back into each seed's meta.json (after strengthening rules)
 seeds = []
 for name in sorted(os.listdir(os.path.join(VERIF, 'seeded'))):
     d = os.path.join(VERIF, 'seeded', name)
@@ -43,6 +44,17 @@ try:
         fired = [l.strip() for l in c.stdout.splitlines() if l.startswith('  C')]
         caught = 'VIOLATION property=' in c.stdout
         results.append((name, 'caught' if caught else 'missed', expected))
+        if UPDATE:
+            import re
+            rules = sorted(set('%s %s' % x for x in re.findall(r'^\s+(C\d+\.R\w+) (\S+)', c.stdout, re.M)))
+            m.setdefault('check_result', {})
+            if m['check_result'].get('caught') != caught or (caught and m['check_result'].get('rules_fired') != rules):
+                if 'caught' in m['check_result'] and m['check_result'].get('caught') is False and caught:
+                    m['check_result']['missed_at_import'] = True
+                m['check_result']['caught'] = caught
+                m['check_result']['rules_fired'] = rules
+                json.dump(m, open(os.path.join(d, 'meta.json'), 'w'), indent=1)
+            expected = caught if UPDATE else expected
         print('%-12s %-8s expected=%s %s' % (name, 'caught' if caught else 'MISSED', 'caught' if expected else 'missed', (fired[0][:140] if fired else '')), flush=True)
         if expected and not caught:
             ok = False
